@@ -41,8 +41,9 @@ type listReply struct {
 
 // fetchPlan says how the request endpoint answers for one request ID.
 type fetchPlan struct {
-	kind    string // "" ok, "404", "503x3", "503x1", "err", "notrequest", "nostart", "badstart", "short"
-	req     string // wire-format request to serve (default: built from the id)
+	kind    string        // "" ok, "404", "503x3", "503x1", "err", "notrequest", "nostart", "badstart", "short"
+	req     string        // wire-format request to serve (default: built from the id)
+	reqFn   func() string // computed when the agent fetches (depends on earlier answers)
 	user    string
 	userSet bool
 	tries   int
@@ -250,6 +251,9 @@ func (w *world) fetchReq(r *http.Request, id string) (*http.Response, error) {
 	hdr.Set(utils.HeaderUserID, user)
 	hdr.Set(utils.HeaderRequestStartTime, vs.Epoch.Add(w.s.Now()).Format(time.RFC3339Nano))
 	body := fp.req
+	if fp.reqFn != nil {
+		body = fp.reqFn()
+	}
 	if body == "" {
 		body = requestFor(id)
 	}
